@@ -246,6 +246,34 @@ func runBytes(f func() (int, error)) (v verdict) {
 	return verdict{class: "ok", val: val}
 }
 
+// standalone runs one of the parser-based decoders on a section reader.
+func standalone(name string, r *io.SectionReader) (int, error) {
+	switch name {
+	case "post":
+		_, err := post.Read(r)
+		return 0, err
+	case "cff":
+		f, err := cff.Read(r)
+		if err != nil {
+			return 0, err
+		}
+		return len(f.Glyphs), nil
+	case "gdef":
+		_, err := gdef.Read(r)
+		return 0, err
+	case "gsub":
+		_, err := gtab.Read(r, gtab.TypeGsub)
+		return 0, err
+	case "gpos":
+		_, err := gtab.Read(r, gtab.TypeGpos)
+		return 0, err
+	case "kern":
+		_, err := kern.Read(r)
+		return 0, err
+	}
+	return 0, errors.New("unknown decoder " + name)
+}
+
 // decoderList: every table decoder of read.go, run on its own on the tables
 // of this file (public API only).  The result is what the model is told.
 func decoderList(file []byte, dir []dirEntry) vlib.Sx {
